@@ -236,6 +236,11 @@ class Keys:
         self.add("k0_es384.v2", ec.generate_private_key(ec.SECP384R1()), "ec", 384)
         self.add("k0_es521.v2", ec.generate_private_key(ec.SECP521R1()), "ec", 521)
         self.add("k0_ed.v2", ed25519.Ed25519PrivateKey.generate(), "ed25519", 0)
+        # the same key types stored as DER files (<name>.der): the key store accepts both forms
+        self.add("kd_es256", ec.generate_private_key(ec.SECP256R1()), "ec", 256, der=True)
+        self.add("kd_es384", ec.generate_private_key(ec.SECP384R1()), "ec", 384, der=True)
+        self.add("kd_es521", ec.generate_private_key(ec.SECP521R1()), "ec", 521, der=True)
+        self.add("kd_ed", ed25519.Ed25519PrivateKey.generate(), "ed25519", 0, der=True)
         self.add("k_ed448", ed448.Ed448PrivateKey.generate(), "ed448", 0)
         self.add("k_rsa", rsa.generate_private_key(65537, 1024), "other", 0)
 
@@ -250,6 +255,8 @@ class Keys:
         """Name of the i-th key whose type matches the algorithm (every fourth one is a dotted name)."""
         if i % 4 == 3:
             return f"k0_es{KEY_SIZE[alg]}.v2" if alg in KEY_SIZE else "k0_ed.v2"
+        if i % 7 == 5:
+            return f"kd_es{KEY_SIZE[alg]}" if alg in KEY_SIZE else "kd_ed"       # a key stored as a DER file
         i %= self.n
         return f"k{i}_es{KEY_SIZE[alg]}" if alg in KEY_SIZE else f"k{i}_ed"
 
